@@ -332,7 +332,9 @@ class USBInTransferManager(Elaboratable):
                     m.next = "WAIT_FOR_DATA"
 
                 # If the host does ACK...
-                with m.Elif(self.handshakes_in.ack):
+                # (Only an ACK that follows our own IN token can be meant for us: once the host has sent
+                #  a token to another device, the token detector reports no active IN token any more.)
+                with m.Elif(self.handshakes_in.ack & self.active & self.tokenizer.is_in):
                     # ... clear the data we've sent from our buffer.
                     m.d.usb += read_fill_count.eq(0)
 
